@@ -812,6 +812,9 @@ func c09fJudge(r *vr.Report, c c09fCase, o c09fObs) {
 			} else {
 				// reflection towards a non-client (ORIGINATOR_ID / CLUSTER_LIST) is judged in part "attrs"
 				r.Outcome(wn + "wire:ibgp-nonclient:attrs-checked")
+				if src.Kind == c09fKClient {
+					r.Outcome(fmt.Sprintf("%swire:client-route-reflected-to-nonclient:originator-id-sent=%v:cluster-list-sent=%v", wn, oid != nil, cl != nil))
+				}
 			}
 		case c09fKRS:
 			// unchanged: exactly the attributes the source sent
